@@ -9,6 +9,7 @@
 import AsmjitVerif.Lemmas.C06SysV
 import AsmjitVerif.Lemmas.C06Win64
 import AsmjitVerif.Lemmas.C06A64
+import AsmjitVerif.Lemmas.C06X32
 import AsmjitVerif.Spec.Machine
 import AsmjitVerif.Lemmas.C06ShuffleLoop
 import AsmjitVerif.Lemmas.C06ShuffleTop
@@ -92,6 +93,91 @@ theorem detail_matches_abi_win64 (e : Env) (sig : Signature) (hc : convOf e sig.
     rfl
   · simpa [r] using ha
   · simp only [argStackSize]; simpa [r] using hI
+
+theorem x86Ret_x86_some (cc : CallConv) (i : Nat) (hi : i < 2) (t : Nat) : ∃ v, x86Ret cc i t = some v := by
+  have hg : gpReturnIndex i ≠ idBad := by
+    have : i = 0 ∨ i = 1 := by omega
+    rcases this with rfl | rfl <;> decide
+  unfold x86Ret
+  simp only
+  repeat' split
+  all_goals first | exact ⟨_, rfl⟩ | (exfalso; simp_all)
+
+theorem retLoop_x86_some (cc : CallConv) (h : cc.arch = .x86) (t : Nat) :
+    ∃ vs, (if t = tVoid then some [] else retLoop (x86Ret cc) 0 (unpack cc.arch t)) = some vs := by
+  by_cases ht : t = tVoid
+  · exact ⟨[], by simp [ht]⟩
+  · simp only [ht, if_false, h]
+    by_cases h64 : t = tInt64 ∨ t = tUInt64
+    · rw [unpack_x86_i64 h64]
+      obtain ⟨v0, hv0⟩ := x86Ret_x86_some cc 0 (by omega) tUInt32
+      obtain ⟨v1, hv1⟩ := x86Ret_x86_some cc 1 (by omega) (t - 2)
+      have h2 : t - 2 ≠ tVoid := by rcases h64 with rfl | rfl <;> decide
+      have hv0' : x86Ret cc 0 39 = some v0 := hv0
+      have h2' : ¬ (t - 2 = 0) := h2
+      exact ⟨[v0, v1], by simp [retLoop, hv0', hv1, h2', tUInt32, tVoid]⟩
+    · have h1 : t ≠ tInt64 := fun h => h64 (Or.inl h)
+      have h2 : t ≠ tUInt64 := fun h => h64 (Or.inr h)
+      rw [unpack_x86_small h1 h2]
+      obtain ⟨v, hv⟩ := x86Ret_x86_some cc 0 (by omega) t
+      exact ⟨[v], by simp [retLoop, hv, ht]⟩
+
+/-- **32-bit x86: cdecl, stdcall, fastcall, thiscall, regparm(1..3)** – every signature over integers of up to 32 bits (64-bit
+    integers where the convention has no integer registers: cdecl / stdcall), float, double, vectors (xmm0-2, stack when variadic)
+    and opmask types; 64-bit integers in fastcall / thiscall / regparm are the open finding K6 / not written. -/
+theorem detail_matches_abi_x32 (e : Env) (sig : Signature) (gp : List Nat) (pops : Bool)
+    (hc : convOf e sig.ccid = some (.x32 gp pops))
+    (hlen : sig.args.length ≤ 32) (hdom : ∀ t ∈ sig.args, x32Dom gp (deabstract 4 t) = true) :
+    ∃ cc d, initFuncDetail e sig = .ok (cc, d) ∧
+      d.args = argsFrom (.x32 gp pops) (sig.vaIndex ≠ 255) [] (sig.args.map (deabstract 4)) ∧
+      d.argStackSize = argStackSize (.x32 gp pops) (sig.vaIndex ≠ 255) (sig.args.map (deabstract 4)) ∧
+      frameMatches cc (.x32 gp pops) := by
+  obtain ⟨arch, win, darwin⟩ := e
+  cases arch
+  case x64 =>
+    exfalso; simp only [convOf] at hc
+    repeat' split at hc
+    all_goals first | contradiction | (simp at hc)
+  case a64 =>
+    exfalso; simp only [convOf] at hc
+    repeat' split at hc
+    all_goals first | contradiction | (cases darwin <;> simp at hc)
+  case x86 =>
+    have hid : sig.ccid ∈ List.range 8 := by
+      rw [List.mem_range]
+      rcases Nat.lt_or_ge sig.ccid 8 with h | h
+      · exact h
+      · exfalso
+        simp [convOf, show sig.ccid ≠ 0 by omega, show sig.ccid ≠ 1 by omega, show sig.ccid ≠ 2 by omega,
+          show sig.ccid ≠ 4 by omega, show sig.ccid ≠ 5 by omega, show sig.ccid ≠ 6 by omega, show sig.ccid ≠ 7 by omega] at hc
+    have hw : win ∈ [false, true] := by cases win <;> simp
+    have hall := initCallConv_x32_all win hw sig.ccid hid
+    have hc' : convOf ⟨.x86, win, false⟩ sig.ccid = some (.x32 gp pops) := hc
+    rw [hc'] at hall
+    cases hinit : initCallConvX86 win sig.ccid with
+    | none => rw [hinit] at hall; simp at hall
+    | some cc =>
+      rw [hinit] at hall
+      simp only [x32CcB, Bool.and_eq_true, beq_iff_eq, Bool.not_eq_true', decide_eq_true_eq, List.all_eq_true, bne_iff_ne, ne_eq] at hall
+      obtain ⟨⟨⟨⟨⟨⟨⟨⟨⟨⟨⟨⟨⟨a1, a2⟩, a3⟩, a4⟩, a5⟩, a6⟩, a7⟩, a8⟩, a9⟩, a10⟩, a11⟩, a12⟩, a13⟩, a14⟩ := hall
+      have hcc : X32Cc cc gp := ⟨a1, a2, a3, a4, a5, a6, a7, fun k hk => by
+        have : gp.getD k 0 ∈ gp := by
+          rw [List.getD_eq_getElem?_getD, List.getElem?_eq_getElem hk]; simp
+        exact a8 _ this⟩
+      obtain ⟨vs, hvs⟩ := retLoop_x86_some cc a1 (deabstract 4 sig.ret)
+      obtain ⟨ha, hI⟩ := x32_loop cc gp pops hcc (decide (sig.vaIndex ≠ 255)) (sig.args.map (deabstract 4)) 0
+        { stackOffset := cc.spillZone } [] ⟨by simp, by cases (decide (sig.vaIndex ≠ 255)) <;> simp, by simp [x32StackEnd, a11]⟩
+        (by intro t ht; obtain ⟨u, hu, rfl⟩ := List.mem_map.1 ht; exact hdom u hu)
+      let r := x86ArgLoop cc (decide (sig.vaIndex ≠ 255)) 4 0 { stackOffset := cc.spillZone } (sig.args.map (deabstract 4))
+      refine ⟨cc, { argStackSize := r.1.stackOffset, rets := vs, args := r.2, usedGp := r.1.usedGp, usedVec := r.1.usedVec },
+        ?_, by simpa [r] using ha, ?_, ?_⟩
+      · simp only [initFuncDetail, initCallConv, hinit, Env.regSize, show ¬ sig.args.length > 32 by omega, if_false]
+        simp only [a1] at hvs ⊢
+        simp only [hvs]
+        rfl
+      · simp only [argStackSize]; simpa [r] using hI.off
+      · unfold frameMatches Conv.frame
+        exact ⟨a9, a10, a11, a12, a13, by rw [a14]; rfl⟩
 
 def a64RetDom (t : Nat) : Bool :=
   t = tVoid || (isInt t && !isAbstract t) || isF32F64 t || isVec32 t || isVec64 t || isVec128 t
